@@ -775,10 +775,17 @@ def m_tuple(interp, it=()):
     return tuple(m_list(interp, it))
 
 
+class SymEnumerate:
+    """enumerate() over a symbolic iterable (iterated under a loop invariant)"""
+
+    def __init__(self, it, start):
+        self.it, self.start = it, start
+
+
 def m_enumerate(interp, it, start=0):
     seq = interp.iterate(it)
     if seq is None:
-        raise Unsupported('enumerate of a symbolic iterable')
+        return SymEnumerate(it, start)
     return enumerate(seq, start)
 
 
